@@ -49,8 +49,8 @@ type monitors struct {
 	desc     string
 	applied  map[applyKey]uint64 // M1
 	who      map[applyKey]string
-	next     map[string]uint64 // M2: node/group/incarnation -> next expected index (0 = unknown yet)
-	leaders  map[string]uint64 // M5: group/term -> sender
+	next     map[string]uint64       // M2: node/group/incarnation -> next expected index (0 = unknown yet)
+	leaders  map[string]uint64       // M5: group/term -> sender
 	prevView map[string]*sim.Durable // M4: node/group -> durable view at the end of the previous incarnation
 	trace    []string
 	failed   bool
@@ -127,6 +127,35 @@ func scenario(rec *mon.Recorder, c int) {
 				if pv := m.prevView[fmt.Sprintf("%d/%s", n.Id, g)]; pv != nil {
 					if v.Term < pv.Term || v.Commit < pv.Commit || v.Last < pv.Commit || (v.Term == pv.Term && v.Vote != pv.Vote && pv.Vote != 0) {
 						m.fail("M4:restart-lost-durable-state:"+gk(g), fmt.Sprintf("node %d group %s restarted with term=%d vote=%d commit=%d last=%d; durable before the crash: term=%d vote=%d commit=%d last=%d", n.Id, gk(g), v.Term, v.Vote, v.Commit, v.Last, pv.Term, pv.Vote, pv.Commit, pv.Last))
+					}
+				}
+			}
+			// M4 (exact): the log the replica resumes from is the log its previous
+			// incarnation had made durable - same last index, same term at every
+			// index both hold, same snapshot point and hard state
+			if old, cur := cl.PrevWAL(n, g), cl.WAL(n, g); old != nil && cur != nil {
+				pv, v := old.View(), cur.View()
+				if len(pv.Terms) > 0 && pv.Last+pv.First > 0 {
+					diff := ""
+					switch {
+					case v.Last != pv.Last:
+						diff = fmt.Sprintf("last index %d, was %d", v.Last, pv.Last)
+					case v.First != pv.First || v.SnapIndex != pv.SnapIndex:
+						diff = fmt.Sprintf("first index %d / snapshot %d, were %d / %d", v.First, v.SnapIndex, pv.First, pv.SnapIndex)
+					case v.Term != pv.Term || v.Vote != pv.Vote || v.Commit != pv.Commit:
+						diff = fmt.Sprintf("hard state term=%d vote=%d commit=%d, was term=%d vote=%d commit=%d", v.Term, v.Vote, v.Commit, pv.Term, pv.Vote, pv.Commit)
+					default:
+						for i := pv.First; i <= pv.Last; i++ {
+							if v.Terms[i] != pv.Terms[i] {
+								diff = fmt.Sprintf("entry %d has term %d, was %d", i, v.Terms[i], pv.Terms[i])
+								break
+							}
+						}
+					}
+					if diff != "" {
+						m.fail("M4:restart-log-differs-from-durable-log:"+gk(g), fmt.Sprintf("node %d group %s resumes from a log that is not the one it had made durable: %s (durable before: first=%d last=%d; after reopen: first=%d last=%d)", n.Id, gk(g), diff, pv.First, pv.Last, v.First, v.Last))
+					} else {
+						m.rec.Count("restart_logs_compared_exactly", 1)
 					}
 				}
 			}
